@@ -84,3 +84,14 @@ Lemma total_len_rich_model_differs :
   L_rich_structure_encode__total_len 536870906 64 = 1073741824 /\
   ((((64 / 32) mod 3 + 536870906) * 8 + 32) mod W32) / 4 = 0.
 Proof. vm_compute. repeat split; reflexivity. Qed.
+
+(* what each binder of the generated definitions stands for in the source (third audit, F2): a function that starts
+   reading another field or index changes coq/gen/Leaf.v only in these lists *)
+From Coq Require Import List String.
+Import ListNotations.
+Lemma leaf_reads_rich :
+  L_rich_structure_RichRecord_decode_args = ["key : u32"%string; "values[0] : u32"%string; "values[1] : u32"%string] /\
+  L_rich_structure_RichRecord_encode_args = ["self.build : u16"%string; "self.product : u16"%string; "self.count : u32"%string; "key : u32"%string] /\
+  L_rich_structure_checksum__record_step_args = ["csum : u32"%string; "record.build : u16"%string; "record.product : u16"%string; "record.count : u32"%string] /\
+  L_rich_structure_encode__total_len_args = ["n : usize"%string; "xor_key : u32"%string].
+Proof. repeat split; reflexivity. Qed.
